@@ -76,15 +76,18 @@ REGISTRY["C03"] = {
                    "downstream tasks) for one activation, plus rapid-drawn orders for 2..3 consecutive activations of the same gateway inside a loop; "
                    "lock-step against the token game (nothing released before the N-th arrival, exactly the M downstream tasks once each after it) and "
                    "trace-level accounting at the gateway (M flows released and N-min(N,M) surplus arrivals consumed per activation). Exhaustive over shapes "
-                   "and orders, sampled over goroutine schedules."),
+                   "and orders, sampled over goroutine schedules. TestC03Skew: 1..3 tokens PER incoming flow of one gateway (2..3 incoming, 1..3 outgoing; several tasks merged by an exclusive "
+                   "gateway in front of each incoming flow), answered in any order - in particular several tokens on one incoming flow before anything arrived on another; "
+                   "equal and unequal numbers per flow (tokens without a partner stay at the gateway, the instance does not complete)."),
     "level_note": LOCKSTEP_TRUST,
     "technique": "bounded-exhaustive enumeration + rapid property test, lock-step differential against a token-game model",
     "rule": ("start -> fork(1->N) -> N tasks -> gateway under test (N->M) -> M tasks -> join(M->1) -> end, optionally inside a loop for re-entry. "
-             "Distinct = (N, M, activations, answer order). Non-trivial = N >= 2 (a real synchronisation)."),
-    "assumptions": ["each incoming flow of the gateway carries exactly one token per activation (block-structured programs)"],
+             "Distinct = (N, M, activations, answer order). Non-trivial = N >= 2 (a real synchronisation); TestC03Skew: some incoming flow carries >= 2 tokens."),
+    "assumptions": [],
     "tests": [
         {"name": "TestC03Table", "mode": "plain", "shards": {"quick": 1, "thorough": 1}},
         {"name": "TestC03Reentry", "checks": {"quick": 150, "thorough": 3000}, "shards": {"quick": 8, "thorough": 16}, "gomaxprocs": [4, 1, 2, 16]},
+        {"name": "TestC03Skew", "checks": {"quick": 60, "thorough": 1500}, "shards": {"quick": 8, "thorough": 16}, "gomaxprocs": [4, 1, 2, 16]},
     ],
 }
 
